@@ -68,8 +68,28 @@ def monitor(rep, case, impl, model, payload):
                 rep.nontrivial(tuple(ops[:k + 1]))
 
 
+def help_after_expiry():
+    """one name reachable with two help texts and two label-name sets, a ttl on everything: shape A, everything expires, shape B
+    (or A) arrives while the name has no live series, then the other shape again - in every order, for every metric type"""
+    out = []
+    for ty, ot in ((b"c", None), (b"g", None), (b"ms", b"summary"), (b"ms", b"histogram")):
+        for seq in (["a", "X", "b", "a"], ["a", "X", "b", "X", "a", "b"], ["b", "X", "a", "c", "b"], ["a", "b", "X", "c", "a"], ["a", "X", "a", "b"], ["a", "X", "c", "X", "b", "a", "c"]):
+            d = GM.defaults(ttl=2 * 10**9, observer_type=ot)
+            rules = [GM.rule(b"a.*", b"shared", help=b"help A", labels=[(b"la", b"$1")]),
+                     GM.rule(b"b.*", b"shared", help=b"help B", labels=[(b"la", b"$1"), (b"lb", b"x")]),
+                     GM.rule(b"c.*", b"shared", help=b"help C", labels=[(b"lc", b"$1")])]
+            ops = [GM.load_op((d, rules)), PE.I(b"bystander:1|g"), "G"]
+            for st in seq:
+                if st == "X":
+                    ops += ["A 3000000000", "S", "G"]
+                else:
+                    ops += [PE.I(st.encode() + b".one:2|" + ty), "G"]
+            out.append((15, ("none", 0), ops, dict(builtin=False)))
+    return out
+
+
 def run(rep, tier, seed, replay):
-    extra = [(15, ("none", 0), [PE.I(b"statsd_exporter_lines_total:1|g"), "G"], dict(builtin=True))]
+    extra = [(15, ("none", 0), [PE.I(b"statsd_exporter_lines_total:1|g"), "G"], dict(builtin=True))] + help_after_expiry()
     PC.run(rep, "C03", tier, seed, replay, gen_case, monitor, 600, 40000,
            "%(n)d histories of 2-12 lines over names {x, x_sum, x_count, x_bucket, x_total, ...} x types {c,g,ms,h} x reserved/exotic tag keys, names of "
            "the binary's own collectors, names that are only tags, two rules mapping to one name with different help, TTL expiry; a scrape (gather + "
